@@ -105,7 +105,9 @@ CLAIMED["C19"] = dict(category=_MC,
     note="complete for the 2-name cache at the design level; conformance on a seeded sample (quick) or all pairs (thorough) plus random histories over 4 names. "
          "Front.tla states the stateless front ends (FFI validate / check_parse / policy and schema conversions / format, and the cedar CLI's authorize / validate / "
          "check-parse / format / translate-policy / translate-schema / link: exit status, printed decision, determining and erroring ids) as functions of abstract sources; 7782 "
-         "TLC-enumerated cases run through cedar_policy::ffi, the plain API and the cedar binary built from /repo's tree; every answer is judged against the spec function and the API answer.")
+         "TLC-enumerated cases run through cedar_policy::ffi, the plain API and the cedar binary built from /repo's tree; every answer is judged against the spec function and the API answer. "
+         "Each authorize / validate / check_parse / format case goes through every entry point of the call (typed, JSON value, JSON string): they must present one answer, else the event "
+         "records 'split', which no specification answer equals; authorize cases also go to is_authorized_partial_json, whose decision on a call without unknowns must be the specification's.")
 ENGINES[0]["serves_properties"] += ["C07", "C18"]
 CLAIMED["C07"] = dict(category=_MC,
     text="CedarExt.tla specifies the four extension types: acceptors as explicit grammars over code points (decimal, IPv4/IPv6 with prefixes, datetime with calendar validity and "
